@@ -5,6 +5,8 @@
 package model
 
 import (
+	"fmt"
+
 	"github.com/basecomplextech/spec/internal/lang/syntax"
 )
 
@@ -49,10 +51,17 @@ func generateMessageDef(pkg *Package, file *File, name string, fields *Fields) (
 	}
 	def.Message = msg
 
+	// Check the package definitions, file.add checks only the definitions of this file,
+	// a definition with the same name in another file would be declared twice.
+	if _, ok := pkg.DefinitionNames[def.Name]; ok {
+		return nil, fmt.Errorf("%v: duplicate definition %q", file.Path, def.Name)
+	}
+
 	// Add definition to file
 	if err := file.add(msg.Def); err != nil {
 		return nil, err
 	}
+	pkg.DefinitionNames[def.Name] = def
 	return def, nil
 }
 
